@@ -27,5 +27,31 @@ CHECKS = {
         note="Arcs representable in neither convention and arcs within 0.01 degree of (but not equal to) a full circle are counted, not asserted; off-lattice tolerance 1e-9 degree.",
         technique="exhaustive lattice enumeration + property-based testing (Hypothesis) against an exact rational model",
     ),
+    "C08": dict(
+        text="Generated block layouts with membership known by construction (block grid chosen first, then presented to verde as shape, dividing "
+             "spacing, spacing to adjust, region to adjust or inferred region); points strictly inside blocks, exactly on shared edges/corners, a hair "
+             "from edges and outside on every side; labels and block centres are compared with admissible label sets and centres computed in exact "
+             "rational arithmetic (row-major numbering from the SW corner, nearest border block for outside points, raveled order for 2-D/Fortran inputs).",
+        design_ref="DESIGN.md 5 (C08)",
+        note="Points within 1e-9 block units of an edge may take either neighbour's label; up to 6x6 blocks and ~40 points per case.",
+        technique="property-based testing (Hypothesis) with constructive generators against an exact rational reference model",
+    ),
+    "C09": dict(
+        text="Generated clouds with membership known by construction; BlockReduce.filter output compared entry by entry with a brute-force group-by: "
+             "one entry per non-empty block in ascending order, reduction of exactly the members' values with their own weights of the same component, "
+             "coordinates reduced unweighted or the centre of that very block, extra coordinates reduced unless dropped, sums adding up to the input total.",
+        design_ref="DESIGN.md 5 (C09)",
+        note="Points at least 2% of a block away from edges; 1e-12 relative tolerance; weights only with reductions accepting a weights argument.",
+        technique="property-based testing (Hypothesis) against a brute-force reference over construction-known membership",
+    ),
+    "C10": dict(
+        text="BlockMean.filter compared per block with exact rational means/variances under each of the three documented weighting rules (both "
+             "variance conventions admitted for the unweighted path), weights in (0,1] with a 1 present, inputs byte-identical afterwards (also "
+             "read-only), uncertainty without weights rejected; variance_to_weights compared element-wise with its formula over arrays containing zeros, "
+             "values at and around the tolerance, NaNs, several components, both dtypes, lists/arrays/read-only arrays.",
+        design_ref="DESIGN.md 5 (C10)",
+        note="Cases whose exact block variance lies in [1e-18, 1e-12] are skipped (round-off could cross the 1e-15 tolerance); ddof 0 or 1 accepted consistently per call.",
+        technique="property-based testing (Hypothesis) against exact rational per-block statistics",
+    ),
 }
 NOT_APPLICABLE = {}
